@@ -13,13 +13,13 @@ import (
 type defKind int
 
 const (
-	defExpr    defKind = iota // x := e / x = e / var x = e
-	defTuple                  // x is the i-th result of a multi-value expression
-	defRangeK                 // range key
-	defRangeV                 // range value
-	defParam                  // parameter / receiver / named result
-	defOpaque                 // x++, x += e, &x taken, var x T (zero value), select recv
-	defTypeSw                 // switch x := y.(type)
+	defExpr   defKind = iota // x := e / x = e / var x = e
+	defTuple                 // x is the i-th result of a multi-value expression
+	defRangeK                // range key
+	defRangeV                // range value
+	defParam                 // parameter / receiver / named result
+	defOpaque                // x++, x += e, &x taken, var x T (zero value), select recv
+	defTypeSw                // switch x := y.(type)
 )
 
 type defSite struct {
